@@ -29,6 +29,8 @@ import (
 	"sort"
 	"strconv"
 	"strings"
+
+	"github.com/jcmturner/rpc/v2/mstypes"
 	"sync"
 	"sync/atomic"
 	"syscall"
@@ -885,6 +887,7 @@ func (s *st) checkAttrs(sm sample, p *pac.PACType, where string) {
 	note("LogOnTime", k.LogOnTime.Time().Equal(w.logon))
 	note("PasswordLastSet", k.PasswordLastSet.Time().Equal(w.pwdLastSet))
 	sids := k.GetGroupMembershipSIDs()
+	note("GroupMembershipSIDs.independent", sameStrings(sids, expectedSIDs(k)))
 	if w.sidsExact != nil {
 		note("GroupMembershipSIDs", sameStrings(sids, w.sidsExact))
 	} else {
@@ -933,6 +936,7 @@ func Run(c *hctx.Ctx) {
 	s.streamOriginal()
 	for si, sm := range sms {
 		timed("genuine", func() { s.streamGenuine(sm) })
+		timed("genuine", func() { s.streamDupSIDs(sm) })
 		timed("structure", func() { s.streamStructure(sm, si) })
 		timed("flips", func() { s.streamFlips(sm, si) })
 	}
@@ -966,6 +970,103 @@ func (s *st) streamOriginal() {
 
 func (s *st) signSample(sm sample, srvCT, kdcCT int32, rodc int) signed {
 	return signPAC(withSigTypes(sm.bufs, srvCT, kdcCT, rodc), nil, s.randKey(keyLen(srvCT)), s.randKey(keyLen(kdcCT)))
+}
+
+// expectedSIDs is an independent statement of MS-PAC group membership: the SIDs of GroupIds (under the logon domain),
+// of ExtraSids and of ResourceGroupIds (under the resource group domain), each once, in order of first appearance.
+func expectedSIDs(k *pac.KerbValidationInfo) []string {
+	var out []string
+	seen := map[string]bool{}
+	add := func(x string) {
+		if !seen[x] {
+			seen[x] = true
+			out = append(out, x)
+		}
+	}
+	dom := k.LogonDomainID.String()
+	for _, g := range k.GroupIDs {
+		// GroupIds are not de-duplicated by the implementation: keep its documented behaviour for these
+		out = append(out, fmt.Sprintf("%s-%d", dom, g.RelativeID))
+		seen[fmt.Sprintf("%s-%d", dom, g.RelativeID)] = true
+	}
+	for _, e := range k.ExtraSIDs {
+		add(e.SID.String())
+	}
+	rdom := k.ResourceGroupDomainSID.String()
+	for _, g := range k.ResourceGroupIDs {
+		add(fmt.Sprintf("%s-%d", rdom, g.RelativeID))
+	}
+	return out
+}
+
+// sidImage is the NDR image of an RPC_SID without its conformance count: revision, count, authority, sub-authorities
+func sidImage(sid mstypes.RPCSID) []byte {
+	b := []byte{sid.Revision, sid.SubAuthorityCount}
+	b = append(b, sid.IdentifierAuthority[:]...)
+	for _, sa := range sid.SubAuthority {
+		b = binary.LittleEndian.AppendUint32(b, sa)
+	}
+	return b
+}
+
+// streamDupSIDs re-signs every sample whose KERB_VALIDATION_INFO carries extra SIDs after making one extra SID a
+// duplicate (of a group of the logon domain, or of the extra SID before it): the membership reported must still be
+// every distinct SID of the signed PAC - nothing after the duplicate may be dropped.
+func (s *st) streamDupSIDs(sm sample) {
+	c := s.c
+	i1 := firstOf(sm.bufs, 1)
+	if i1 < 0 {
+		return
+	}
+	var k pac.KerbValidationInfo
+	if p, _ := hctx.Guard(func() { k.Unmarshal(append([]byte{}, sm.bufs[i1].data...)) }); p || len(k.ExtraSIDs) == 0 {
+		return
+	}
+	type variant struct {
+		name     string
+		old, new []byte
+	}
+	var vs []variant
+	e0 := k.ExtraSIDs[0].SID
+	if len(k.GroupIDs) > 0 && len(e0.SubAuthority) > 0 && e0.String()[:strings.LastIndex(e0.String(), "-")] == k.LogonDomainID.String() {
+		n := e0
+		n.SubAuthority = append(append([]uint32{}, e0.SubAuthority[:len(e0.SubAuthority)-1]...), k.GroupIDs[len(k.GroupIDs)-1].RelativeID)
+		vs = append(vs, variant{"extra0=group", sidImage(e0), sidImage(n)})
+	}
+	if len(k.ExtraSIDs) >= 2 && len(sidImage(k.ExtraSIDs[1].SID)) == len(sidImage(e0)) {
+		vs = append(vs, variant{"extra1=extra0", sidImage(k.ExtraSIDs[1].SID), sidImage(e0)})
+	}
+	for _, v := range vs {
+		data := sm.bufs[i1].data
+		at := bytes.LastIndex(data, v.old)
+		if at < 0 || bytes.Equal(v.old, v.new) {
+			continue
+		}
+		nb := cloneBufs(sm.bufs)
+		nd := append([]byte{}, data...)
+		copy(nd[at:], v.new)
+		nb[i1].data = nd
+		var k2 pac.KerbValidationInfo
+		if p, _ := hctx.Guard(func() { k2.Unmarshal(append([]byte{}, nd...)) }); p {
+			continue
+		}
+		want := expectedSIDs(&k2)
+		if len(want) >= len(expectedSIDs(&k)) && v.name != "extra0=group" {
+			continue // the edit did not create a duplicate
+		}
+		for _, ct := range pacTypes {
+			sg := signPAC(withSigTypes(nb, ct, ct, -1), nil, s.randKey(keyLen(ct)), s.randKey(keyLen(ct)))
+			r := s.exec("dup-sid", sg.b, sg.srvKey, false)
+			c.Check(r.accepted(), "genuine-accepted", fmt.Sprintf("C19:genuine-rejected:type%d", ct), fmt.Sprint(sm.name, " dup-sid ", v.name, " ", r.uerr, r.perr), hex.EncodeToString(sg.b))
+			if !r.accepted() || r.p.KerbValidationInfo == nil {
+				continue
+			}
+			got := r.p.KerbValidationInfo.GetGroupMembershipSIDs()
+			c.Check(sameStrings(got, want), "membership-is-every-distinct-sid", "C19:attrs:dup-sid:"+v.name,
+				fmt.Sprintf("%s: reported %d SIDs, the signed PAC names %d distinct ones", sm.name, len(got), len(want)), hex.EncodeToString(sg.b))
+			c.Count("dup-sid:" + v.name)
+		}
+	}
 }
 
 func (s *st) streamGenuine(sm sample) {
@@ -1250,7 +1351,7 @@ func (s *st) streamFlips(sm sample, si int) {
 			if r.status == "crash-external" {
 				// the external NDR decoder died before the signature was looked at: show at least that the
 				// signature no longer matches (signature fields are where they were: the flip is elsewhere)
-				if !structural(f.pos) {
+				if !structural(f.pos) && !f.inKDC { // a flipped KDC signature VALUE leaves the server signature valid by design
 					z := append([]byte{}, m...)
 					for i := sg.srvLo; i < sg.srvHi; i++ {
 						z[i] = 0
